@@ -40,14 +40,18 @@ AbstractOK(accepted, sop, cx) ==
 \*  subject to SCP/SCU role selection - no role is required of the context)
 RoleOK(role, cx) == CASE role = "scu" -> cx.scu [] role = "scp" -> cx.scp [] OTHER -> TRUE
 
-\* op = [sop, role, ds : "none" | "fresh" | a transfer syntax (the encoding the data set arrived in)]
+\* op = [sop, role, ds : "none" | "fresh" | a transfer syntax (the encoding the data set arrived in),
+\*       raw : the stored bytes are streamed as they are (C-STORE of a file path in chunked mode) - no conversion at all,
+\*       prev : an earlier send on the same association ("none" | "same": a C-STORE of a data set of the same SOP class and
+\*              transfer syntax) - the property holds for every send whatever was sent before]
 \* res = [sent, id (context id used), enc (transfer syntax the data set on the wire decodes in, "none" without data set)]
 CtxOf(accepted, i) == CHOOSE c \in accepted : c.id = i
 C18_Accepted(accepted, op, res) == res.sent => \E c \in accepted : c.id = res.id
 C18_Abstract(accepted, op, res) == res.sent => AbstractOK(accepted, op.sop, CtxOf(accepted, res.id))
 C18_Role(accepted, op, res) == res.sent => RoleOK(op.role, CtxOf(accepted, res.id))
 C18_Encoding(accepted, op, res) == (res.sent /\ op.ds # "none") => res.enc = CtxOf(accepted, res.id).ts
-C18_Conversion(accepted, op, res) == (res.sent /\ op.ds \in Syntaxes) => Convertible(op.ds, CtxOf(accepted, res.id).ts)
+MayCarry(op, ts) == IF op.raw THEN op.ds = ts ELSE Convertible(op.ds, ts)
+C18_Conversion(accepted, op, res) == (res.sent /\ op.ds \in Syntaxes) => MayCarry(op, CtxOf(accepted, res.id).ts)
 C18(accepted, op, res) == /\ C18_Accepted(accepted, op, res)
                           /\ (res.sent /\ (\E c \in accepted : c.id = res.id)) =>
                                 /\ C18_Abstract(accepted, op, res) /\ C18_Role(accepted, op, res)
@@ -55,7 +59,7 @@ C18(accepted, op, res) == /\ C18_Accepted(accepted, op, res)
 
 \* ---- reference chooser (what a conforming sender may do): any usable context; refuses iff there is none ----
 Usable(accepted, op) == {c \in accepted : /\ AbstractOK(accepted, op.sop, c) /\ RoleOK(op.role, c)
-                                          /\ (op.ds \in Syntaxes => Convertible(op.ds, c.ts))}
+                                          /\ (op.ds \in Syntaxes => MayCarry(op, c.ts))}
 \* the reference prefers an exact transfer syntax match, as the documentation says
 Preferred(accepted, op) == LET U == Usable(accepted, op) IN
                            IF op.ds \in Syntaxes /\ \E c \in U : c.ts = op.ds THEN {c \in U : c.ts = op.ds} ELSE U
